@@ -369,7 +369,12 @@ def r4_symmetric_predicate(ctx):
             t = P.un(s)
             if t in ("if self is other: return True", "return seq_equals(self, other)"):
                 continue
-            if t == "if hasattr(other, '__len__') and len(self) != len(other): return False":
+            if t.replace("collections.abc.", "") in ("if isinstance(other, Sized) and len(self) != len(other): return False",
+                                                      "if isinstance(other, Sized) and len(other) != len(self): return False"):
+                continue
+            if "hasattr(other, '__len__')" in t and "len(other)" in t:
+                # true of class objects too (list, dict, a record type): len(other) then raises TypeError
+                problems.append(t + "  [hasattr(other, '__len__') also holds for classes, whose len() raises: (= [] python/list) is a TypeError, not false]")
                 continue
             problems.append(t)
         ctx.ob("C05.R4", f"{rel}::{cname}.__eq__::symmetric guards then seq_equals", rel, eq.lineno, not problems, "" if not problems else f"`{problems[0][:90]}` is not one of the symmetric guards: a = b and b = a may disagree")
@@ -416,8 +421,10 @@ SELFTEST = [
     {"name": "core = compares with ==", "file": CORE, "expect": "C05.R3",
      "old": "     (basilisp.lang.runtime/equals x (first args)))))\n\n(defn not=", "new": "     (operator/eq x (first args)))))\n\n(defn not="},
     {"name": "vector equality with an asymmetric shortcut", "file": VEC, "expect": "C05.R4",
-     "old": "        if hasattr(other, \"__len__\") and len(self) != len(other):\n            return False\n        return seq_equals(self, other)\n\n    def __getitem__",
+     "old": "        if isinstance(other, Sized) and len(self) != len(other):\n            return False\n        return seq_equals(self, other)\n\n    def __getitem__",
      "new": "        if not isinstance(other, PersistentVector):\n            return False\n        return seq_equals(self, other)\n\n    def __getitem__"},
+    {"name": "length short-cut guarded by hasattr (the repaired defect)", "file": VEC, "expect": "C05.R4",
+     "old": "        if isinstance(other, Sized) and len(self) != len(other):\n", "new": "        if hasattr(other, \"__len__\") and len(self) != len(other):\n"},
     # twins
     {"name": "twin: vector hashes via tuple(self)", "file": VEC, "expect": None,
      "old": "        return hash(tuple(self._inner))\n", "new": "        return hash(tuple(self))\n"},
